@@ -65,7 +65,7 @@ NEEDS = {
  "C11-m7": ("smoothed shape with a small k, temperature more than 331.6 k beyond the balance point (clip replaced by a shortcut that drops -|beta k|)", None),
  "C11-m8": ("unsmoothed single-slope model whose stored balance point lies outside the segment limits (intercept moved with the clamp)", None),
  "C12-m7": ("final two-slope fit with a balance point exactly on a segment limit (fix_full_model_x handed the segment limits)", None),
- "C12-m8": ("optimiser returns the balance points reversed at the final fit (re-ordered without their slopes)", None),
+ "C12-m8": ("optimiser returns the balance points reversed at the final fit (re-ordered without their slopes)", "known-finding region C12-H part 1 narrowed to the smoothed kind (the change lay inside an over-wide region)"),
  "C13-m7": ("a season with 28 or 29 valid days but at least 8 weekend days (the 30-day checks write dead locals)", None),
  "C13-m8": ("second fit of one model object (error metrics behind functools.lru_cache)", "best/refit"),
  "C14-m7": ("update_daily_settings on settings without developer mode (model_copy runs no validators)", "update helper entries in the constructor catalogue"),
@@ -74,7 +74,7 @@ NEEDS = {
  "C16-m8": ("t_tail=1 (tail argument dropped from the t quantile call)", "arguments of the t quantile recorded by the stub"),
  "C18-m7": ("predict(prediction_index, temperature) with the two arguments in different zones", "prediction index in another zone"),
  "C18-m8": ("NaN temperature (mask tests the wrong series)", None),
- "C19-m7": ("bi-monthly aggregation with a leading temperature gap reaching into the next month (.dropna() before resample)", None),
+ "C19-m7": ("bi-monthly aggregation with a leading temperature gap reaching into the next month (.dropna() before resample)", "temperature may be missing on the first two days of a span"),
  "C19-m8": ("period in which at most half of the days have a temperature (50% rule ported to the aggregation)", None),
  "C20-m7": ("ignore_billing_period_gap_for_day_count=True and an empty selection (index[0] instead of index.min())", None),
  "C20-m8": ("allow_billing_period_overshoot=True and an empty pre-end selection (handler narrowed to KeyError)", None),
